@@ -762,28 +762,29 @@ type decoSite struct {
 	dst      *[]*DirApp
 	loc      string
 	optional bool
+	owner    string // for an argument of a directive definition: that directive (no self reference)
 }
 
 func (g *sgen) sites() []decoSite {
 	s := g.s
 	var out []decoSite
 	if s.HasSchemaBlock {
-		out = append(out, decoSite{&s.SchemaDirectives, "SCHEMA", false})
+		out = append(out, decoSite{dst: &s.SchemaDirectives, loc: "SCHEMA"})
 	}
 	for _, t := range s.Types {
-		out = append(out, decoSite{&t.Directives, t.Kind.location(), false})
+		out = append(out, decoSite{dst: &t.Directives, loc: t.Kind.location()})
 		for _, f := range t.Fields {
 			if t.Kind == InputObject {
-				out = append(out, decoSite{&f.Directives, "INPUT_FIELD_DEFINITION", !f.Required() && !t.OneOf || t.OneOf})
+				out = append(out, decoSite{dst: &f.Directives, loc: "INPUT_FIELD_DEFINITION", optional: !f.Required()})
 			} else {
-				out = append(out, decoSite{&f.Directives, "FIELD_DEFINITION", true})
+				out = append(out, decoSite{dst: &f.Directives, loc: "FIELD_DEFINITION", optional: true})
 				for _, a := range f.Args {
-					out = append(out, decoSite{&a.Directives, "ARGUMENT_DEFINITION", !a.Required()})
+					out = append(out, decoSite{dst: &a.Directives, loc: "ARGUMENT_DEFINITION", optional: !a.Required()})
 				}
 			}
 		}
 		for _, v := range t.Values {
-			out = append(out, decoSite{&v.Directives, "ENUM_VALUE", true})
+			out = append(out, decoSite{dst: &v.Directives, loc: "ENUM_VALUE", optional: true})
 		}
 	}
 	return out
